@@ -55,8 +55,37 @@ DecFields(spec, b, i, acc) ==
        ELSE DecFields(spec, r.rest, i + 1, acc @@ (spec[i].name :> r.v))
 DecodePreimage(m, b) == DecFields(FieldSpec(m), b, 1, <<>>)
 
-\* K of the X25519 methods: the 32 output octets read as an unsigned big-endian integer (RFC 8731 3.1)
-KOfX25519(secret) == BigInt(FALSE, StripZeros(secret))
+(* K.  Every method first has the shared secret as a fixed-width big-endian octet string `raw` (the 32 octets of
+   X25519, the field-width x coordinate of ECDH, the modulus-width residue of DH, the 32 octets of SHA-256 for the
+   hybrid).  For the mpint methods K is that string read as an unsigned integer (RFC 8731 3.1, RFC 5656 4, RFC 4253
+   8) and enters the hash as the *minimal* mpint of PrimSSHEnc; for the hybrid it enters as a string, unchanged.
+   The shape of raw decides what minimality means, so it is a dimension of the encoding part:
+     "ord"   first octet 01..7f            mpint payload = raw
+     "hi"    first octet >= 80             a 00 sign octet is prepended
+     "lz"    00, then an octet 01..7f      the leading zero octet is dropped
+     "lzhi"  00, then an octet >= 80       the zero octet is dropped and a sign octet added: payload = raw again
+     "lz2"   00 00 ...                     every leading zero octet is dropped (then the sign rule applies) *)
+KShapes == {"ord", "hi", "lz", "lzhi", "lz2"}
+ShapeOf(raw) == IF raw[1] >= 128 THEN "hi" ELSE IF raw[1] > 0 THEN "ord"
+                ELSE IF raw[2] = 0 THEN "lz2" ELSE IF raw[2] >= 128 THEN "lzhi" ELSE "lz"
+KOfSecret(raw) == BigInt(FALSE, StripZeros(raw))
+KOfX25519(secret) == KOfSecret(secret)
+KEnc(m) == FieldSpec(m)[Len(FieldSpec(m))].enc            \* K is the last hashed field of every method
+KValue(m, raw) == IF KEnc(m) = "mpint" THEN KOfSecret(raw) ELSE raw
+EncK(m, raw) == Enc(KEnc(m), KValue(m, raw))
+\* what the encoding of K must look like, by shape (raw of width >= 3 and not all zero)
+KEncodingOK(m, raw) ==
+  LET d == DecString(EncK(m, raw))
+      b == d.v
+      w == Len(raw) IN
+  /\ d.ok /\ d.rest = <<>>
+  /\ IF KEnc(m) = "string" THEN b = raw
+     ELSE /\ IsMinimalTwos(b) /\ TwosVal(b) = KOfSecret(raw) /\ ~TopBit(b)
+          /\ CASE ShapeOf(raw) = "ord"  -> b = raw
+               [] ShapeOf(raw) = "hi"   -> b = <<0>> \o raw
+               [] ShapeOf(raw) = "lz"   -> b = Tail(raw)
+               [] ShapeOf(raw) = "lzhi" -> b = raw
+               [] OTHER                 -> Len(b) <= w - 1 /\ StripZeros(b) = StripZeros(raw)
 
 -----------------------------------------------------------------------------
 (* ---------- (c) DH-GEX group choice ---------- *)
